@@ -19,8 +19,7 @@ RULE = ('cases = (K distinct on-grid bins incl. DC, +-1 and NFFT/2, amplitudes/p
         'function | class); plus noisy data with explicit NSIG / threshold / AIC / MDL; non-trivial when '
         'K >= 2 or the data are noisy; distinct = distinct descriptor')
 ASSUMPTIONS = ['forward-backward matrix rebuilt by the monitor from X; numpy.linalg.svd is the reference',
-               'the code caps the number of data rows at 100: the singular-value clause is evaluated against the '
-               'matrix of the rows the code documents (N-P <= 100), beyond that the cap is an observation',
+               'the data matrix has all N-P forward and N-P backward rows (finding F37: the code used to cap them at 100)',
                'whole-spectrum comparison only when the gap sigma[NSIG-1]/sigma[NSIG] >= 1e3 (noise subspace well defined)']
 REQUIRED_ANCHORS = ('eigen', '_get_signal_space')
 SHIFTS = (0, 1, -1)
@@ -74,12 +73,12 @@ def post_eigen(X, P, NSIG, method, threshold, NFFT, criteria, result):
     f_pos = dict(feats, exact_zero_singular_value=_zero_sv(S))
     c.require('eigen:psd-positive', bool(np.isrealobj(psd) and not np.any(np.isnan(psd)) and np.all(psd > 0)),
               {'min': float(np.nanmin(psd)) if psd.size else None}, f_pos, charact=_ev_zero(psd))
-    capped = NPr > 100
-    NP = min(NPr, 100)
+    capped = NPr > 100              # the records on which finding F37 (a silent cap of 100 rows) showed
+    NP = NPr
     FB = fb_matrix(x, P, NP)
     sref = np.linalg.svd(FB, compute_uv=False)
     if capped:
-        c.count('observation:eigen-row-cap-100-active')
+        c.count('records-with-more-than-100-data-matrix-rows')
     if c.require('eigen:singular-values-length', S.shape == sref.shape, {'len': list(S.shape), 'P': P}, feats):
         c.compare('eigen:singular-values-are-those-of-the-data-matrix', S, sref, 1e-9, feats,
                   scale=float(sref[0]) or 1.0, detail={'N': N, 'P': P, 'capped': capped})
@@ -255,6 +254,8 @@ def run_case(c, d):
     if d['fn'] == 'noisy':
         c.set_nontrivial(True)
         x = gen.data({'kind': d['kind'], 'N': d['N'], 'cplx': bool(d['cplx']), 'snr_db': 10.0}, c.rng(d, 'x'))
+        if d.get('i', 0) % 7 in (5, 6):
+            x = gen.variant(x, gen.LAYOUTS[d['i'] % 7 - 5])   # handed over as a non-contiguous view / read-only array
         kw = {}
         if d['select'] == 'nsig':
             kw['NSIG'] = d['nsig']
@@ -272,6 +273,8 @@ def run_case(c, d):
     c.set_nontrivial(K >= 2)
     x = gen.data({'kind': 'exact', 'N': N, 'cplx': not real, 'grid': NFFT, 'bins': d['bins']}, c.rng(d, 'x'))
     x = x * 10.0 ** d.get('amp10', 0)
+    if d.get('i', 0) % 7 in (5, 6):
+        x = gen.variant(x, gen.LAYOUTS[d['i'] % 7 - 5])       # handed over as a non-contiguous view / read-only array
     true = sorted(set(b % NFFT for b in (d['bins'] + [-b for b in d['bins']] if real else d['bins'])))
     feats = {'method': d['method'], 'real': real, 'form': d['form'], 'nfft_odd': bool(NFFT % 2)}
     try:
